@@ -1379,7 +1379,9 @@ class Py2Cpp(ITranspiler):
 	# Operator
 
 	def on_factor(self, node: defs.Factor, operator: str, value: str) -> str:
-		return self.render(node, 'operation/unary_operator', vars={'operator': operator, 'value': value})
+		# XXX 被演算子が符号で始まる場合(例: `- -x`、負数に畳み込まれたEnumの値)、C++では`--`/`++`と解釈されるため括弧で補完
+		value_grouped = f'({value})' if operator in ['-', '+'] and value.startswith(operator) else value
+		return self.render(node, 'operation/unary_operator', vars={'operator': operator, 'value': value_grouped})
 
 	def on_not_compare(self, node: defs.NotCompare, operator: str, value: str) -> str:
 		# XXX C++の`!`は2項演算子より優先度が高いため、Pythonの`not`と同じ結合になる様に括弧で補完
